@@ -154,8 +154,8 @@ pub fn find(cache: &Path, key: &str) -> Result<Option<Metadata>> {
         .fold(None, |acc, entry| {
             if entry.key == key {
                 if let Some(integrity) = entry.integrity {
-                    let integrity: Integrity = match integrity.parse() {
-                        Ok(sri) => sri,
+                    let integrity: Integrity = match parse_entry_integrity(&integrity) {
+                        Some(sri) => sri,
                         _ => return acc,
                     };
                     Some(Metadata {
@@ -186,8 +186,8 @@ pub async fn find_async(cache: &Path, key: &str) -> Result<Option<Metadata>> {
         .fold(None, |acc, entry| {
             if entry.key == key {
                 if let Some(integrity) = entry.integrity {
-                    let integrity: Integrity = match integrity.parse() {
-                        Ok(sri) => sri,
+                    let integrity: Integrity = match parse_entry_integrity(&integrity) {
+                        Some(sri) => sri,
                         _ => return acc,
                     };
                     Some(Metadata {
@@ -272,6 +272,12 @@ pub fn ls(cache: &Path) -> impl Iterator<Item = Result<Metadata>> {
                     format!("Error getting bucket entries from {}", owned_path.display())
                 })?
                 .into_iter()
+                // Entries whose integrity can't address any content are
+                // ignored, exactly like `find` ignores them.
+                .filter(|se| match &se.integrity {
+                    Some(i) => parse_entry_integrity(i).is_some(),
+                    None => true,
+                })
                 .rev()
                 .collect::<HashSet<SerializableMetadata>>()
                 .into_iter()
@@ -279,7 +285,7 @@ pub fn ls(cache: &Path) -> impl Iterator<Item = Result<Metadata>> {
                     if let Some(i) = se.integrity {
                         Some(Metadata {
                             key: se.key,
-                            integrity: i.parse().unwrap(),
+                            integrity: parse_entry_integrity(&i)?,
                             time: se.time,
                             size: se.size,
                             metadata: se.metadata,
@@ -295,6 +301,53 @@ pub fn ls(cache: &Path) -> impl Iterator<Item = Result<Metadata>> {
             Ok(it) => Left(it.into_iter().map(Ok)),
             Err(err) => Right(std::iter::once(Err(err))),
         })
+}
+
+/// Parses the integrity string of an index entry read from disk. The first
+/// hash is turned into a content path by decoding its digest, so an entry
+/// whose integrity has no hashes, or a digest that is not canonical base64 of
+/// at least two bytes, cannot address content and is rejected here instead of
+/// panicking later.
+fn parse_entry_integrity(integrity: &str) -> Option<Integrity> {
+    let sri: Integrity = integrity.parse().ok()?;
+    if sri.hashes.is_empty() || !sri.hashes.iter().all(|h| digest_is_usable(&h.digest)) {
+        return None;
+    }
+    Some(sri)
+}
+
+fn digest_is_usable(digest: &str) -> bool {
+    fn sextet(c: u8) -> Option<u8> {
+        match c {
+            b'A'..=b'Z' => Some(c - b'A'),
+            b'a'..=b'z' => Some(c - b'a' + 26),
+            b'0'..=b'9' => Some(c - b'0' + 52),
+            b'+' => Some(62),
+            b'/' => Some(63),
+            _ => None,
+        }
+    }
+    let bytes = digest.as_bytes();
+    if bytes.is_empty() || bytes.len() % 4 != 0 {
+        return false;
+    }
+    let pad = bytes.iter().rev().take_while(|&&c| c == b'=').count();
+    if pad > 2 {
+        return false;
+    }
+    let data = &bytes[..bytes.len() - pad];
+    let last = match data.last().and_then(|&c| sextet(c)) {
+        Some(v) => v,
+        None => return false,
+    };
+    if !data.iter().all(|&c| sextet(c).is_some()) {
+        return false;
+    }
+    // Unused trailing bits of the last symbol must be zero.
+    if (pad == 1 && last & 0b11 != 0) || (pad == 2 && last & 0b1111 != 0) {
+        return false;
+    }
+    bytes.len() / 4 * 3 - pad >= 2
 }
 
 fn bucket_path(cache: &Path, key: &str) -> PathBuf {
